@@ -43,3 +43,22 @@ Proof.
   - intros i Hi. apply (upgrad_nonconflicting n); assumption.
 Qed.
 Print Assumptions C04_upgrad.
+
+(* ---- MGDA (added): the allowance of the statement, for EVERY iteration budget and epsilon ---- *)
+From TJ.proofs Require Import C18Proofs MgdaProofs.
+(* x = MGDA's output, xstar a minimum-norm point of the convex hull of the rows, s any bound on the
+   row norms (sigma_max in particular): every objective satisfies
+   (J.A(J))_i >= - s * sqrt(|A(J)|^2 - |xstar|^2), the sub-optimality after the iterations done *)
+Theorem C04_mgda_allowance : forall n J eps iters wstar s i, wfmat n J -> hull_min n J wstar ->
+  0 <= s -> (forall g, In g J -> dotR g g <= s * s) -> (i < length J)%nat ->
+  let x := agg_mgda RN eps iters J in
+  let xstar := vmR n wstar J in
+  - s * sqrt (dotR x x - dotR xstar xstar) <= nth i (mvR J x) 0.
+Proof. exact mgda_allowance_mv. Qed.
+Print Assumptions C04_mgda_allowance.
+(* the exact minimum-norm point opposes no objective at all *)
+Theorem C04_min_norm_point_nonconflicting : forall n J wstar i, wfmat n J -> hull_min n J wstar ->
+  (i < length J)%nat ->
+  dotR (vmR n wstar J) (vmR n wstar J) <= dotR (nth i J []) (vmR n wstar J).
+Proof. exact hull_min_nonconflicting. Qed.
+Print Assumptions C04_min_norm_point_nonconflicting.
